@@ -60,4 +60,60 @@ def run(out, tier):
                 out.fail("lang:" + (prints[k][8:-1].split("[")[0] if k < len(prints) else "?") + "-slice-or-index", {"kind": "lang", "expr": prints[k] if k < len(prints) else "?", "printed": g, "reference": w})
     if len(got) != len(want):
         out.fail("lang:line-count", {"kind": "lang", "printed_lines": len(got), "reference_lines": len(want)})
-    return {"language_level_observations": n, "language_level_mismatches": bad}
+    chained = run_chained(out)
+    return {"language_level_observations": n, "language_level_mismatches": bad, **chained}
+
+
+CHAIN_RECEIVERS = ["xs[1:]", "xs[::-1]", "xs[1:5]", "xs[:-1]", "xs[1:][::-1]", "xs[1:][0:]", "s[1:]", "s[::-1]", "s[1:][::-1]", "ws[1:]", "g[1:]"]
+
+
+def run_chained(out):
+    """An index applied directly to a slice expression (list of int / str / list, string; literal and run-time index,
+    negative and non-negative, in range; and one past either end for the documented IndexError)."""
+    lines = ['s = "héllo𝄞"', "xs = [10, 20, 30, 40, 50]", 'ws = ["a", "bb", "ccc", "dd", "e"]', "g = [[1], [2, 3], [4], [5, 6], [7]]", "ks = [-4, -1, 0, 2, 3]"]
+    n = 0
+    body = []
+    for rcv in CHAIN_RECEIVERS:
+        show = "println(len({}))" if rcv.startswith("g") else "println({})"
+        body.append(show.format(f"{rcv}[k]"))
+        for lit in (-4, -1, 0, 3):
+            lines_lit = show.format(f"{rcv}[{lit}]")
+            lines.append(lines_lit)
+            n += 1
+    lines.append("for k in ks:\n" + "\n".join("    " + b for b in body))
+    n += len(body) * 5
+    u = sem.Unit("c05chain", "", "\n".join(lines))
+    inc, py = sem.pack([u])
+    r = pipe.run_program(0, {"prog.incn": inc})
+    rc, so, se = sem.run_python(py)
+    if rc != 0:
+        raise common.MachineryError("C05 chained reference failed: " + se[-300:])
+    bad = 0
+    if r.stage != "run" or r.exit != 0:
+        out.fail("lang:chained-slice-index-program-did-not-run", {"kind": "lang", "program": inc, "stage": r.stage, "detail": r.detail, "exit": r.exit, "stderr": r.stderr[-500:], "stdout": r.stdout[-300:]})
+        bad += 1
+    else:
+        got = sem.split_frames(r.stdout).get("c05chain", [])
+        want = sem.split_frames(so).get("c05chain", [])
+        if got != want:
+            bad += 1
+            k = next((i for i, (a, b) in enumerate(zip(got, want)) if a != b), min(len(got), len(want)))
+            out.fail("lang:chained-slice-index-differs", {"kind": "lang", "program": inc, "first_difference_at_line": k, "printed": got[k : k + 3], "reference": want[k : k + 3]})
+    # one past either end: IndexError, not a wrapped-around element and not a Rust bounds panic
+    jobs = []
+    for rcv in ("xs[1:]", "s[1:]", "xs[::-1]"):
+        size = 4 if rcv == "xs[1:]" else 5
+        for k in (size, -size - 1):
+            src = f'def main() -> None:\n    s = "héllo𝄞"\n    xs = [10, 20, 30, 40, 50]\n    ks = [{k}]\n    for k in ks:\n        println("before")\n        println({rcv}[k])\n        println("after")\n'
+            jobs.append(((rcv, k), {"prog.incn": src}))
+    rr = pipe.run_many(jobs)
+    for (rcv, k), files in jobs:
+        r = rr[(rcv, k)]
+        n += 1
+        if r.stage != "run":
+            out.fail("lang:chained-slice-index-program-did-not-run", {"kind": "lang", "program": files["prog.incn"], "stage": r.stage, "detail": r.detail, "stderr": r.stderr[-400:]})
+            bad += 1
+        elif r.exit == 0 or "after" in r.stdout or "IndexError" not in r.stderr:
+            out.fail("lang:chained-slice-index-out-of-range-not-an-IndexError", {"kind": "lang", "program": files["prog.incn"], "exit": r.exit, "stdout": r.stdout, "stderr": r.stderr[-400:]})
+            bad += 1
+    return {"chained_slice_index_observations": n, "chained_slice_index_mismatches": bad}
